@@ -65,13 +65,19 @@ inductive LoopRes
 /-- errno of a failing `lstat` / `telldir` (the spec'd directory never makes them fail) -/
 def hostFailErrno : Nat := Gen.WasiPath.errnoDefault
 
-/-- the `while (bufferUsed < bufferLength)` loop; `rest` = entries from the stream position `i` on -/
-def rdLoop (pm : Nat) (d : Dir) (path : Bytes) (bufPtr bufLen : Nat) :
+/-- the `while (bufferUsed < bufferLength)` loop; `stale` = the value of `errno` when fd_readdir is entered
+    (`none` = 0): any earlier failed host call of the process leaves one behind, which is legal state; `rest` = entries from the stream position `i` on -/
+def rdLoop (pm : Nat) (d : Dir) (path : Bytes) (stale : Option String) (bufPtr bufLen : Nat) :
     List Entry → Nat → Nat → Mem → Out LoopRes
   | rest, i, used, mem =>
     if ¬ Gen.WasiPath.loopContinues used bufLen then .val (.fall i used mem) else
     match rest with
-    | [] => .val (.fall i used mem)
+    | [] =>
+      -- `[errno = 0;] entry = readdir(dir); if (entry == NULL) { if (errno != 0) return wasiErrno(); break; }`
+      -- readdir reports the end of the directory by NULL and leaves errno as it was
+      match (if Gen.WasiPath.readdirResetsErrno then none else stale) with
+      | none => .val (.fall i used mem)
+      | some e => .val (.ret (wasiErrno e) i mem)
     | e :: rest' =>
       let bufferRemaining := u32 (bufLen - used)
       let resultPointer := u32 (bufPtr + used)
@@ -91,7 +97,7 @@ def rdLoop (pm : Nat) (d : Dir) (path : Bytes) (bufPtr bufLen : Nat) :
       let resultPointer := u32 (bufPtr + used)
       let adj := Gen.WasiPath.adjustedNameLength nameLength bufferRemaining
       let mem ← storeBytes mem resultPointer (e.name.take adj)
-      rdLoop pm d path bufPtr bufLen rest' (i + 1) (u32 (used + adj)) mem
+      rdLoop pm d path stale bufPtr bufLen rest' (i + 1) (u32 (used + adj)) mem
 
 /-- `(long)cookie` for a `U64` cookie (two's complement) -/
 def cookieToLong (cookie : Nat) : Int :=
@@ -125,7 +131,7 @@ def positionStream (pm : Nat) (d : Dir) (path : Bytes) (dirSt : Option Pos) (mem
                 else if Gen.WasiPath.readdirCallsRewind then rewinddir d p0 else p0))
 
 /-- second part: `i32_store(bufferUsedPointer, 0)`, the loop, `i32_store(bufferUsedPointer, bufferUsed)` -/
-def readFrom (pm : Nat) (d : Dir) (path : Bytes) (p : Pos) (mem : Mem) (bufPtr bufLen usedPtr : Nat) : Out Res := do
+def readFrom (pm : Nat) (d : Dir) (path : Bytes) (stale : Option String) (p : Pos) (mem : Mem) (bufPtr bufLen usedPtr : Nat) : Out Res := do
   let mem ← i32Store mem usedPtr 0
   match p with
   | .unspec =>
@@ -134,17 +140,17 @@ def readFrom (pm : Nat) (d : Dir) (path : Bytes) (p : Pos) (mem : Mem) (bufPtr b
       let mem ← i32Store mem usedPtr 0
       .val (.done ⟨Gen.WasiPath.errnoSuccess, some p, mem⟩)
   | .at i => do
-    match ← rdLoop pm d path bufPtr bufLen (d.entries.drop i) i 0 mem with
+    match ← rdLoop pm d path stale bufPtr bufLen (d.entries.drop i) i 0 mem with
     | .ret e i' mem => .val (.done ⟨e, some (.at i'), mem⟩)
     | .fall i' used mem => do
       let mem ← i32Store mem usedPtr used
       .val (.done ⟨Gen.WasiPath.errnoSuccess, some (.at i'), mem⟩)
 
 /-- `wasiFDReaddir` for a descriptor with path string `path` and stream state `dirSt` -/
-def fdReaddir (pm : Nat) (d : Dir) (path : Bytes) (dirSt : Option Pos) (mem : Mem)
+def fdReaddir (pm : Nat) (d : Dir) (path : Bytes) (stale : Option String) (dirSt : Option Pos) (mem : Mem)
     (bufPtr bufLen cookie usedPtr : Nat) : Out Res :=
   positionStream pm d path dirSt mem cookie >>= fun
   | .inl r => .val (.done r)
-  | .inr p => readFrom pm d path p mem bufPtr bufLen usedPtr
+  | .inr p => readFrom pm d path stale p mem bufPtr bufLen usedPtr
 
 end W2c2Verif.WasiReaddir
